@@ -17,6 +17,11 @@ func (r *Router) parseParamRoute(route *Route) (first string) {
 
 	// no vars, but contains optional char
 	if len(ss) == 0 {
+		// the fixed start string is before the optional char. /blog/index[.html]
+		if optPos := strings.IndexByte(path, '['); optPos > 0 {
+			first = route.parseStart(path[0:optPos])
+		}
+
 		regexStr := checkAndParseOptional(quotePointChar(path))
 		route.regex = regexp.MustCompile("^" + regexStr + "$")
 		return
@@ -59,18 +64,7 @@ func (r *Router) parseParamRoute(route *Route) (first string) {
 		minPos = optPos
 	}
 
-	start := path[0:minPos]
-	if len(start) > 1 {
-		route.start = start
-
-		if pos := strings.IndexByte(start[1:], '/'); pos > 0 {
-			first = start[1 : pos+1]
-			// start string only one node. "/users/"
-			if len(start)-len(first) == 2 {
-				route.start = ""
-			}
-		}
-	}
+	first = route.parseStart(path[0:minPos])
 
 	// "." -> "\.". Notice: must after get the start string, it is compared with the raw request path.
 	path = quotePointChar(path)
@@ -83,6 +77,23 @@ func (r *Router) parseParamRoute(route *Route) (first string) {
 	// replace {var} -> regex str
 	regexStr := strings.NewReplacer(varRegex...).Replace(path)
 	route.regex = regexp.MustCompile("^" + regexStr + "$")
+	return
+}
+
+// save the fixed start string of the route path, and returns the first node of it.
+// "/users/profile/{id}" -> start: "/users/profile/", first: "users"
+func (r *Route) parseStart(start string) (first string) {
+	if len(start) > 1 {
+		r.start = start
+
+		if pos := strings.IndexByte(start[1:], '/'); pos > 0 {
+			first = start[1 : pos+1]
+			// start string only one node. "/users/"
+			if len(start)-len(first) == 2 {
+				r.start = ""
+			}
+		}
+	}
 	return
 }
 
